@@ -130,6 +130,8 @@ static int do_op (int op, const Model * m, int *rclass)
     case OP_NEW:
       P = orc_program_new_dss (4, 4, 4);
       orc_program_add_parameter (P, 4, "p1");
+      /* every temporary slot taken (named, unused): all 16 names have to be released with the program */
+      { int k; char nm[8]; for (k = 0; k < 16; k++) { sprintf (nm, "t%d", k + 1); orc_program_add_temporary (P, 4, nm); } }
       orc_program_set_name (P, "life");
       break;
     case OP_ADD_OK: orc_program_append_str (P, "addl", "d1", "s1", "s2"); break;
